@@ -34,7 +34,6 @@ import (
 	"fmt"
 	"go/ast"
 	"go/token"
-	"path/filepath"
 	"strconv"
 	"strings"
 )
@@ -75,20 +74,20 @@ type pfParam struct {
 }
 
 type pfFunc struct {
-	key, lean  string
-	d          *parsDecl
-	ft         *ast.FuncType
-	body       []ast.Stmt
-	params     []pfParam // receiver first, captured parameters of the constructor next
-	results    []string
-	partial    bool
-	fuel, env  bool
-	textOnly   map[string]bool // set-up variables of a constructor that hold error texts
-	doc        string
-	fill       bool       // State.Request: the read loop at its head is replaced by env.fill
-	prefix     []ast.Stmt // a constructor's set-up statements that compute something the parser uses
-	generic    bool       // the signature mentions ρ / ε
-	named      []pfParam  // named results: variables that start at their zero value
+	key, lean string
+	d         *parsDecl
+	ft        *ast.FuncType
+	body      []ast.Stmt
+	params    []pfParam // receiver first, captured parameters of the constructor next
+	results   []string
+	partial   bool
+	fuel, env bool
+	textOnly  map[string]bool // set-up variables of a constructor that hold error texts
+	doc       string
+	fill      bool       // State.Request: the read loop at its head is replaced by env.fill
+	prefix    []ast.Stmt // a constructor's set-up statements that compute something the parser uses
+	generic   bool       // the signature mentions ρ / ε
+	named     []pfParam  // named results: variables that start at their zero value
 }
 
 // the translated functions, callee before caller; `X/func0` is the parser a constructor returns
@@ -916,7 +915,7 @@ func (c *pfCtx) retText(n ast.Node, vals []pfVal) string {
 	return val
 }
 
-// endText: falling off the end where the statement list stands
+// loopState: the loop variables as one value
 func (c *pfCtx) loopState() string { return pfTuple(c.loopVs) }
 
 // scopeParams: the variables in scope as binders, and as arguments
@@ -2021,4 +2020,3 @@ end Gts.Gen.GoPars
 
 func genParsPrelude(repo string) (string, error) { return parsPreludeText, nil }
 
-var _ = filepath.Join
